@@ -49,7 +49,12 @@ pub fn run_job(line: &str) -> String {
             CAP.store(usize::MAX, Ordering::Relaxed);
             match r {
                 Ok(()) => format!("ok maxalloc={} peak={}", MAX_SINGLE.load(Ordering::Relaxed), PEAK.load(Ordering::Relaxed)),
-                Err(ps) => format!("panic {}", ps.site),
+                Err(ps) => {
+                    if std::env::var("VERIF_RAW").is_ok() {
+                        eprintln!("RAW {}", ps.raw);
+                    }
+                    format!("panic {}", ps.site)
+                }
             }
         }
         Some("cycle") if p.len() == 2 => {
